@@ -63,14 +63,25 @@ class Rec:
 
 
 class Lazy:
-    """a value of a record type whose fields are produced on demand: tainted public record or invariant-carrying type"""
-    __slots__ = ("ty", "t", "why")
+    """a value of a record type whose fields are produced on demand.
+    mode T: caller-controlled (every scalar reached through it is tainted, full range)
+    mode V: valid (the type invariants of FIELD_INVARIANTS hold for every record reached through it; not tainted)
+    mode U: unknown internal provenance (full range, not tainted: never alarmed, nothing assumed)"""
+    __slots__ = ("ty", "mode", "why")
 
-    def __init__(self, ty, t, why=""):
-        self.ty, self.t, self.why = ty, t, why
+    def __init__(self, ty, mode, why=""):
+        if mode is True:
+            mode = "T"
+        elif mode is False:
+            mode = "U"
+        self.ty, self.mode, self.why = ty, mode, why
+
+    @property
+    def t(self):
+        return self.mode == "T"
 
     def key(self):
-        return ("lazy", self.ty, self.t)
+        return ("lazy", self.ty, self.mode)
 
 
 def vkey(v):
@@ -86,16 +97,49 @@ def join(a, b):
         return Fl(a.t or b.t, a.why if a.t else b.why)
     if isinstance(a, Rec) and isinstance(b, Rec):
         out = {}
-        for k in set(a.f) & set(b.f):
-            out[k] = join(a.f[k], b.f[k])
+        for k in set(a.f) | set(b.f):
+            if k in a.f and k in b.f:
+                out[k] = join(a.f[k], b.f[k])
+            elif isinstance(k, tuple) and k[0] == "variant":
+                out[k] = a.f.get(k, b.f.get(k))     # the other side is a different variant
         return Rec(out)
     if isinstance(a, Lazy) and isinstance(b, Lazy) and a.ty == b.ty:
-        return Lazy(a.ty, a.t or b.t, a.why if a.t else b.why)
-    if isinstance(a, Lazy) and isinstance(b, (Rec,)):
-        return Lazy(a.ty, True if a.t else a.t, a.why)
-    if isinstance(b, Lazy) and isinstance(a, (Rec,)):
-        return Lazy(b.ty, b.t, b.why)
+        if a.mode == b.mode:
+            return a
+        if "T" in (a.mode, b.mode):
+            return a if a.mode == "T" else b
+        return Lazy(a.ty, "U", "")
+    if isinstance(a, Lazy) and isinstance(b, Rec):
+        return _join_lazy_rec(a, b)
+    if isinstance(b, Lazy) and isinstance(a, Rec):
+        return _join_lazy_rec(b, a)
     return None
+
+
+def _rec_tainted(r):
+    for v in r.f.values():
+        if isinstance(v, Rec):
+            if _rec_tainted(v):
+                return True
+        elif getattr(v, "t", False):
+            return True
+    return False
+
+
+def _join_lazy_rec(l, r):
+    if l.mode == "T":
+        return l
+    if _ENG is not None:
+        e = _ENG.expand(l)
+        if e is not None:
+            return join(e, r)
+    if _rec_tainted(r):
+        why = ""
+        for v in r.f.values():
+            if getattr(v, "t", False):
+                why = v.why
+        return Lazy(l.ty, "T", why)
+    return Lazy(l.ty, "U", "")
 
 
 # ---- type knowledge of the repository -------------------------------------------------------------------------------
@@ -108,20 +152,21 @@ FIELD_INVARIANTS = {
     (ISO_TIME, "hour"): (0, 23), (ISO_TIME, "minute"): (0, 59), (ISO_TIME, "second"): (0, 59),
     (ISO_TIME, "millisecond"): (0, 999), (ISO_TIME, "microsecond"): (0, 999), (ISO_TIME, "nanosecond"): (0, 999),
     ("temporal_rs::epoch_nanoseconds::EpochNanoseconds", "0"): (-8_640_000_000_000_000_000_000, 8_640_000_000_000_000_000_000),
-    ("temporal_rs::options::increment::RoundingIncrement", "0"): (1, 10**9),
-    (CORE + "duration::normalized::NormalizedTimeDuration", "0"): (-(2**53 * 10**9 - 1), 2**53 * 10**9 - 1),
-    (CORE + "timezone::UtcOffset", "0"): (-1439, 1439),
 }
-# outer types whose private payload carries the invariants above
-VALIDATED_OUTER = {CORE + "date::PlainDate", CORE + "datetime::PlainDateTime", CORE + "time::PlainTime",
-                   CORE + "year_month::PlainYearMonth", CORE + "month_day::PlainMonthDay", CORE + "instant::Instant",
-                   CORE + "zoneddatetime::ZonedDateTime", "temporal_rs::epoch_nanoseconds::EpochNanoseconds",
-                   "temporal_rs::options::increment::RoundingIncrement", CORE + "duration::normalized::NormalizedTimeDuration",
-                   CORE + "timezone::UtcOffset", CORE + "timezone::TimeZone"}
+# types whose every producer validates (C02 rule R6 checks exactly this set); values of these types are valid wherever
+# they come from, so reading through them yields the invariants above
+VALIDATED_OUTER = {CORE + "date::PlainDate", CORE + "datetime::PlainDateTime", CORE + "year_month::PlainYearMonth",
+                   CORE + "instant::Instant", CORE + "zoneddatetime::ZonedDateTime",
+                   "temporal_rs::epoch_nanoseconds::EpochNanoseconds"}
 # records whose fields a caller can set freely (pub fields, Default) — tainted when they arrive through a public parameter
 PUBLIC_RECORDS = {ISO_DATE, ISO_TIME, ISO_DT, CORE + "duration::time::TimeDuration", CORE + "duration::date::DateDuration",
                   CORE + "duration::Duration", CORE + "date::PartialDate", CORE + "time::PartialTime",
                   CORE + "datetime::PartialDateTime", CORE + "duration::PartialDuration", "temporal_rs::primitive::FiniteF64"}
+
+
+# raw ISO records arriving through a public parameter are assumed to satisfy their documented validity (assumption A-ISO
+# in DESIGN.md: `IsoDate::new_unchecked` and the public fields are an explicitly unchecked escape hatch)
+ASSUMED_VALID_PARAMS = {ISO_DATE, ISO_TIME, ISO_DT, CORE + "time::PlainTime", CORE + "month_day::PlainMonthDay"}
 
 
 def base_ty(ty):
@@ -138,6 +183,9 @@ def base_ty(ty):
 def is_foreign_data(ty):
     b = base_ty(ty)
     return b.startswith("tzif::") or b.startswith("ixdtf::")
+
+
+_ENG = None
 
 
 class Alarm:
@@ -172,125 +220,153 @@ class Engine:
         self.pending = []
 
     # ---- values of types -------------------------------------------------------------------------------------------
-    def top(self, ty, tainted=False, why=""):
+    def top(self, ty, mode=False, why="", _depth=0):
+        """most general value of a type; mode False/'U' unknown, True/'T' caller-controlled, 'V' valid"""
+        if mode is True:
+            mode = "T"
+        elif mode is False:
+            mode = "U"
         ty = (ty or "").strip()
-        r = ty_range(ty)
+        b = ty
+        while b.startswith("&"):
+            b = b[1:].lstrip()
+            if b.startswith("mut "):
+                b = b[4:]
+            elif b.startswith("'") and " " in b:
+                b = b.split(" ", 1)[1]
+        r = ty_range(b)
         if r:
-            return AV(r[0], r[1], tainted, why)
-        b = ty.lstrip("&")
+            return AV(r[0], r[1], mode == "T", why if mode == "T" else "")
+        if b == "bool":
+            return AV(0, 1)
         if b in ("f64", "f32"):
-            return Fl(tainted, why)
-        bt = base_ty(ty)
-        if bt in VALIDATED_OUTER or bt in PUBLIC_RECORDS or bt in self.adts or is_foreign_data(ty):
-            return Lazy(bt, tainted, why)
-        m = re.match(r"^(?:core::result::Result|core::option::Option|core::ops::control_flow::ControlFlow)<(.*)>$", b)
-        if m:
-            return Lazy(b, tainted, why)
-        if b.startswith("("):
-            return Lazy(b, tainted, why)
+            return Fl(mode == "T", why if mode == "T" else "")
+        bt = base_ty(b)
+        if bt in VALIDATED_OUTER and mode != "V":
+            # values of the range-checked types are valid however they arrive (C02 R6: every producer validates)
+            return Lazy(b, "V", "")
+        m = re.match(r"^(core::result::Result|core::option::Option|core::ops::control_flow::ControlFlow)<(.*)>$", b)
+        if m and _depth < 3:
+            parts = _split_generics(m.group(2))
+            kind = m.group(1).rsplit("::", 1)[-1]
+            if kind == "Result":
+                return Rec({("variant", "Ok"): Rec({0: self.top(parts[0], mode, why, _depth + 1)}), ("variant", "Err"): Rec({})})
+            if kind == "Option":
+                return Rec({("variant", "Some"): Rec({0: self.top(parts[0], mode, why, _depth + 1)}), ("variant", "None"): Rec({})})
+            return Rec({("variant", "Continue"): Rec({0: self.top(parts[-1], mode, why, _depth + 1)}),
+                        ("variant", "Break"): Rec({})})
+        if b.startswith("(") and b.endswith(")") and _depth < 3:
+            parts = _split_generics(b[1:-1])
+            if parts == [""]:
+                return Rec({})
+            return Rec({i: self.top(x, mode, why, _depth + 1) for i, x in enumerate(parts) if x})
+        if "::" in b or b.startswith("["):
+            return Lazy(b, mode, why)
         return None
+
+    def expand(self, lz):
+        """a Lazy record as an explicit Rec (one level), or None when the type is not a known struct"""
+        ad = self.adts.get(base_ty(lz.ty))
+        if ad is None or ad.get("kind") != "struct" or not ad.get("variants"):
+            return None
+        out = {}
+        for i, f in enumerate(ad["variants"][0]["fields"]):
+            v = self.field_of(lz, f["name"], i, f["ty"], lz.ty)
+            out[f["name"]] = v
+            out[i] = v
+        return Rec(out)
 
     def field_of(self, val, name, idx, fty, of):
         """read a field of an abstract value"""
         if isinstance(val, Rec):
-            if name in val.f:
+            if name is not None and name in val.f:
                 return val.f[name]
             if idx in val.f:
                 return val.f[idx]
+            lz = val.f.get("__lazy")
+            if lz is not None:
+                return self.field_of(lz, name, idx, fty, of)
             return self.top(fty)
-        ofb = base_ty(of)
-        inv = FIELD_INVARIANTS.get((ofb, name if name is not None else str(idx)))
         if isinstance(val, Lazy):
-            if inv and not (val.t and ofb in PUBLIC_RECORDS and not val.ty in VALIDATED_OUTER and val.why != "__inv"):
-                # the record was reached through a validated outer type, or is not caller-controlled
-                if not val.t or val.why == "__inv":
-                    return AV(inv[0], inv[1], False, "type invariant of %s.%s" % (ofb.rsplit("::", 1)[-1], name))
-            sub = self.top(fty, val.t, val.why)
-            if base_ty(val.ty) in VALIDATED_OUTER or val.why == "__inv":
-                # fields of a validated outer type carry invariants and are not caller-controlled
-                if isinstance(sub, Lazy):
-                    return Lazy(sub.ty, False, "__inv")
+            ofb = base_ty(of)
+            fname = name if name is not None else str(idx)
+            if val.mode == "V":
+                inv = FIELD_INVARIANTS.get((ofb, fname))
                 if inv:
-                    return AV(inv[0], inv[1], False, "type invariant")
-                if isinstance(sub, AV):
-                    return AV(sub.lo, sub.hi, False, "")
-                if isinstance(sub, Fl):
-                    return Fl(False, "")
+                    return AV(inv[0], inv[1], False, "")
+                return self.top(fty, "V")
+            if val.mode == "T":
+                sub = self.top(fty, "T", val.why)
+                if isinstance(sub, (AV, Fl)) and sub.t:
+                    sub.why = "%s.%s" % (val.why, fname)
                 return sub
-            if inv and not val.t:
-                return AV(inv[0], inv[1], False, "type invariant")
-            if val.t and isinstance(sub, (AV, Fl, Lazy)):
-                sub.t = True
-                sub.why = val.why if not val.why.startswith("field") else val.why
-                if isinstance(sub, (AV, Fl)):
-                    sub.why = "%s.%s" % (val.why, name if name is not None else idx)
-            return sub
-        if val is None:
-            if inv:
-                return None
             return self.top(fty)
         return self.top(fty)
 
-    # ---- driver ----------------------------------------------------------------------------------------------------
-    def seed(self, crates_reachable):
-        for f in self.fns.values():
+    # ---- driver (context-sensitive: a callee is analysed per distinct abstract argument tuple) ---------------------------
+    MAX_CTX = 24
+    MAX_DEPTH = 16
+
+    def entry_args(self, f):
+        vals = []
+        short = f.path.replace("temporal_rs::", "").replace("builtins::core::", "")
+        for p in f.params:
+            bt = base_ty(p["ty"])
+            why = "parameter `%s` of %s" % (p["name"], short)
+            if bt in ASSUMED_VALID_PARAMS:
+                vals.append(Lazy(bt, "V", ""))
+            else:
+                vals.append(self.top(p["ty"], "T", why))
+        return vals
+
+    def run(self):
+        self.memo = {}
+        self.ctx = defaultdict(int)
+        self.joined = {}
+        self.bodies = {}
+        self.site = {}          # (fn path, site key) -> 0 safe / 1 unresolved / 2 alarm
+        for f in sorted(self.fns.values(), key=lambda f: f.path):
             if f.reachable and f.kind in ("Fn", "AssocFn"):
-                vals = []
-                for p in f.params:
-                    bt = base_ty(p["ty"])
-                    why = "parameter `%s` of %s" % (p["name"], f.name)
-                    if bt in VALIDATED_OUTER:
-                        vals.append(Lazy(bt, False, ""))
-                    else:
-                        vals.append(self.top(p["ty"], True, why))
-                self.merge_params(f.path, vals)
+                self.stats["entry_points"] = self.stats.get("entry_points", 0) + 1
+                self.call_fn(f.path, self.entry_args(f), ())
+        self.stats["contexts"] = len(self.memo)
+        self.stats["functions"] = len({k[0] for k in self.memo})
 
-    def merge_params(self, path, vals):
-        cur = self.params.get(path)
-        if cur is None:
-            self.params[path] = list(vals)
-            self.pending.append(path)
-            return
-        changed = False
-        new = []
-        for a, b in zip(cur, vals):
-            j = join(a, b) if (a is not None or b is not None) else None
-            if a is None and b is not None:
-                j = None
-            if vkey(j) != vkey(a):
-                changed = True
-            new.append(j)
-        if changed:
-            self.params[path] = new
-            self.pending.append(path)
+    def call_fn(self, path, args, stack):
+        f = self.fns[path]
+        key = (path, tuple(vkey(a) for a in args))
+        if key in self.memo:
+            r = self.memo[key]
+            if r != "in-progress":
+                return r
+        if key in self.memo or path in stack or len(stack) >= self.MAX_DEPTH:
+            # recursion / depth bound: unknown result, tainted when any argument is
+            self.stats["cutoffs"] = self.stats.get("cutoffs", 0) + 1
+            return self.top(f.ret, "T" if any(_t(a) for a in args) else "U", _why(*args))
+        if self.ctx[path] >= self.MAX_CTX:
+            # too many contexts: analyse the join of all further argument tuples once per growth
+            j = self.joined.get(path)
+            if j is None:
+                nj = list(args)
+            else:
+                nj = [join(x, y) if (x is not None and y is not None) else None for x, y in zip(j[0], args)]
+            if j is not None and [vkey(x) for x in nj] == [vkey(x) for x in j[0]]:
+                return j[1]
+            self.joined[path] = (nj, self.top(f.ret, "T" if any(_t(a) for a in nj) else "U", _why(*nj)))
+            ret = FnAnalysis(self, f, nj, stack + (path,)).run()
+            self.joined[path] = (nj, ret)
+            return ret
+        self.ctx[path] += 1
+        self.memo[key] = "in-progress"
+        ret = FnAnalysis(self, f, args, stack + (path,)).run()
+        self.memo[key] = ret
+        return ret
 
-    def run(self, max_rounds=4000):
-        n = 0
-        while self.pending and n < max_rounds:
-            p = self.pending.pop(0)
-            if p in self.pending:
-                continue
-            n += 1
-            f = self.fns.get(p)
-            if f is None:
-                continue
-            old = vkey(self.rets.get(p)) if p in self.rets else "unset"
-            ret = FnAnalysis(self, f).run()
-            self.rets[p] = ret
-            if vkey(ret) != old:
-                # callers may improve; re-run those that call p
-                for q, cs in self.callers.get(p, ()):  # noqa
-                    if q not in self.pending:
-                        self.pending.append(q)
-        self.stats["rounds"] = n
-
-    def prepare_callers(self):
-        self.callers = defaultdict(set)
-        for p, f in self.fns.items():
-            b = M.Body(f)
-            for c in b.calls():
-                for t in self.resolve(c):
-                    self.callers[t].add((p, 0))
+    def body(self, f):
+        b = self.bodies.get(f.path)
+        if b is None:
+            b = self.bodies[f.path] = M.Body(f)
+        return b
 
     def resolve(self, c):
         f = c.fn
@@ -316,10 +392,12 @@ def widen(old, new, ty):
 
 
 class FnAnalysis:
-    def __init__(self, eng, f):
+    def __init__(self, eng, f, args, stack):
         self.eng = eng
         self.f = f
-        self.b = M.Body(f)
+        self.args = args
+        self.stack = stack
+        self.b = eng.body(f)
         self.blocks = self.b.blocks
         self.nl = len(self.b.locals)
 
@@ -338,9 +416,12 @@ class FnAnalysis:
                 v = self.eng.field_of(v, e.get("n"), e["f"], e.get("ty"), e.get("of"))
             elif isinstance(e, dict) and "as" in e:
                 # downcast: payload record of the variant
-                if isinstance(v, Rec) and ("variant", e["as"]) in v.f:
-                    v = v.f[("variant", e["as"])]
-                # otherwise keep v (Lazy or payload Rec)
+                if isinstance(v, Rec):
+                    if ("variant", e["as"]) in v.f:
+                        v = v.f[("variant", e["as"])]
+                    elif any(isinstance(k, tuple) for k in v.f):
+                        v = None            # a variant this value cannot be (infeasible path) or unknown
+                # a Lazy stays: its fields are derived from the field types
             elif isinstance(e, dict) and ("idx" in e or "cidx" in e):
                 v = None if not isinstance(v, Lazy) else Lazy(v.ty + "[]", v.t, v.why)
             else:
@@ -449,10 +530,9 @@ class FnAnalysis:
     # ---- main loop -------------------------------------------------------------------------------------------------------
     def run(self):
         eng = self.eng
-        eng.stats["functions"] += 1
         f = self.f
         init = {}
-        pv = eng.params.get(f.path) or []
+        pv = self.args
         for i in range(self.b.argc):
             v = pv[i] if i < len(pv) else None
             if v is None:
@@ -486,11 +566,13 @@ class FnAnalysis:
                         if tgt not in work:
                             work.append(tgt)
         # alarms from the final (stable) site results
-        for key, a in self.site_results.items():
-            if a is None:
-                eng.alarms.pop((f.path, key), None)
-            else:
-                eng.alarms[(f.path, key)] = a
+        for key, (status, a) in self.site_results.items():
+            k = (f.path, key)
+            eng.site[k] = max(eng.site.get(k, 0), status)
+            if a is not None:
+                old = eng.alarms.get(k)
+                if old is None or len(old[4]) > len(self.stack):
+                    eng.alarms[k] = a + (self.stack,)
         ret = None
         for r in rets:
             ret = r if ret is None else join(ret, r)
@@ -635,6 +717,12 @@ class FnAnalysis:
                     rec[names[i] if i < len(names) else i] = v
                     rec[i] = v
                 val = Rec(rec)
+                ad = self.eng.adts.get(akind["adt"])
+                if akind["adt"] in VALIDATED_OUTER:
+                    val = Lazy(akind["adt"], "V", "")
+                elif akind["adt"].startswith("core::") and akind["adt"].rsplit("::", 1)[-1] in ("Result", "Option", "ControlFlow") \
+                        or (ad is not None and ad.get("kind") == "enum"):
+                    val = Rec({("variant", akind["variant"]): val})
             else:
                 val = None
         else:
@@ -654,12 +742,16 @@ class FnAnalysis:
 
     # ---- assertions --------------------------------------------------------------------------------------------------
     def check_assert(self, bb, env, t):
-        eng = self.eng
+        """status of one compiler-emitted arithmetic / bounds assertion in this context: 0 proved, 1 unresolved (operands of
+        unknown internal provenance: nothing claimed), 2 alarm (caller-controlled operand can make it fail)"""
         msg = t["msg"]
-        eng.stats["asserts"] += 1
         line = M.line_of(t.get("line"))
         key = None
-        alarm = None
+        status, text = 1, None
+
+        def verdict(safe, tainted, txt):
+            return (0, None) if safe else ((2, txt) if tainted else (1, None))
+
         if msg.startswith("Overflow:") and msg.split(":")[1] in ("Add", "Sub", "Mul"):
             op = msg.split(":")[1]
             a, b = (self.operand(env, o) for o in t["ops"])
@@ -668,72 +760,58 @@ class FnAnalysis:
             res = self.arith(op, a, b, ty)
             key = "overflow:%s" % op
             if isinstance(res, AV) and r:
-                if res.lo >= r[0] and res.hi <= r[1]:
-                    eng.stats["asserts_safe"] += 1
-                elif res.t:
-                    src = a if (isinstance(a, AV) and a.t) else b
-                    alarm = ("overflow", "%s on %s can overflow: %s %s %s with operands in %s and %s; the unbounded operand "
-                             "derives from %s" % (op, ty, _fmt(a), {"Add": "+", "Sub": "-", "Mul": "*"}[op], _fmt(b),
-                                                  _fmt(a), _fmt(b), src.why or "an external value"))
-                else:
-                    eng.stats["unresolved"] += 1
+                src = a if (isinstance(a, AV) and a.t) else b
+                status, text = verdict(res.lo >= r[0] and res.hi <= r[1], res.t,
+                                       "`%s` on %s can overflow: operands range over %s and %s; caller-controlled through %s" %
+                                       ({"Add": "+", "Sub": "-", "Mul": "*"}[op], ty, _fmt(a), _fmt(b),
+                                        getattr(src, "why", "") or "an external value"))
         elif msg.startswith("OverflowNeg"):
             a = self.operand(env, t["ops"][0])
             ty = self.op_ty(t["ops"][0])
             r = ty_range(ty)
             key = "overflow:Neg"
             if isinstance(a, AV) and r:
-                if a.lo > r[0]:
-                    eng.stats["asserts_safe"] += 1
-                elif a.t:
-                    alarm = ("overflow", "negation of %s can overflow (value may be %s::MIN); derives from %s" %
-                             (ty, ty, a.why or "an external value"))
-                else:
-                    eng.stats["unresolved"] += 1
+                status, text = verdict(a.lo > r[0], a.t, "negation of %s can overflow (operand may be %s::MIN); "
+                                       "caller-controlled through %s" % (ty, ty, a.why or "an external value"))
         elif msg.startswith("DivisionByZero") or msg.startswith("RemainderByZero"):
-            d = self.operand(env, t["ops"][0])
+            # the assert's operand is the dividend; the divisor is in the comparison that feeds the condition
+            d = None
+            cp = M.op_place(t["cond"])
+            pr = env.get(("p", M.place_local(cp))) if cp is not None and not M.place_proj(cp) else None
+            if pr and pr[0] == "cmp" and pr[1] == "Eq":
+                d = self.operand(env, pr[2])
             key = "zero-divisor"
             if isinstance(d, AV):
-                if d.lo > 0 or d.hi < 0:
-                    eng.stats["asserts_safe"] += 1
-                elif d.t:
-                    alarm = ("div-zero", "divisor may be zero; derives from %s" % (d.why or "an external value"))
-                else:
-                    eng.stats["unresolved"] += 1
+                status, text = verdict(d.lo > 0 or d.hi < 0, d.t, "divisor ranges over %s and may be zero; caller-controlled "
+                                       "through %s" % (_fmt(d), d.why or "an external value"))
         elif msg.startswith("Overflow:Shl") or msg.startswith("Overflow:Shr"):
             a, b = (self.operand(env, o) for o in t["ops"])
             ty = self.op_ty(t["ops"][0])
             key = "shift"
             bits = BITS.get((ty or "").lstrip("&"), 128)
             if isinstance(b, AV):
-                if 0 <= b.lo and b.hi < bits:
-                    eng.stats["asserts_safe"] += 1
-                elif b.t:
-                    alarm = ("shift", "shift amount %s can reach or exceed the %d bits of %s; derives from %s" %
-                             (_fmt(b), bits, ty, b.why or "an external value"))
-                else:
-                    eng.stats["unresolved"] += 1
+                status, text = verdict(0 <= b.lo and b.hi < bits, b.t, "shift amount %s can reach the %d bits of %s; "
+                                       "caller-controlled through %s" % (_fmt(b), bits, ty, b.why or "an external value"))
         elif msg.startswith("Overflow:Div") or msg.startswith("Overflow:Rem"):
-            eng.stats["asserts_safe"] += 1
+            a, b = (self.operand(env, o) for o in t["ops"])
+            ty = self.op_ty(t["ops"][0])
+            r = ty_range(ty)
+            key = "overflow:Div"
+            if isinstance(a, AV) and isinstance(b, AV) and r:
+                status, text = verdict(a.lo > r[0] or b.lo > -1 or b.hi < -1, a.t and b.t,
+                                       "%s::MIN / -1 is possible; caller-controlled through %s" % (ty, a.why))
         elif msg.startswith("BoundsCheck"):
             ln, ix = (self.operand(env, o) for o in t["ops"])
             key = "bounds"
             if isinstance(ln, AV) and isinstance(ix, AV):
-                if ix.hi < ln.lo:
-                    eng.stats["asserts_safe"] += 1
-                elif ix.t:
-                    alarm = ("bounds", "index %s may exceed the length %s; derives from %s" % (_fmt(ix), _fmt(ln), ix.why))
-                else:
-                    eng.stats["unresolved"] += 1
+                status, text = verdict(ix.hi < ln.lo, ix.t, "index %s may reach the length %s; caller-controlled through %s" %
+                                       (_fmt(ix), _fmt(ln), ix.why))
         if key is None:
             return
-        # ordinal of this assert kind in source order is assigned later; use (line-independent) block index order
         skey = (key, bb)
-        if alarm:
-            eng.stats["asserts_tainted"] += 1
-            self.site_results[skey] = (alarm[0], alarm[1], line, key)
-        else:
-            self.site_results[skey] = None
+        old = self.site_results.get(skey)
+        # the last visit of a block sees the stable state
+        self.site_results[skey] = (status, (key, text, line, key) if status == 2 else None)
 
     def after_assert(self, env, t):
         msg = t["msg"]
@@ -870,21 +948,18 @@ class FnAnalysis:
             val = None
             first = True
             for g in locals_:
-                gf = eng.fns[g]
-                pv = []
-                for i, a in enumerate(args):
-                    pv.append(a)
-                eng.merge_params(g, pv)
-                r = eng.rets.get(g, "unset")
-                if r == "unset":
-                    r = None
-                val = r if first else join(val, r)
+                r = eng.call_fn(g, args, self.stack)
+                val = r if first else (join(val, r) if (val is not None and r is not None) else None)
                 first = False
             if val is None:
                 val = eng.top(dty)
-            # generic provider methods: results are data the caller (provider) controls
-            if fnj.get("trait", "").endswith("provider::TimeZoneProvider"):
-                val = eng.top(dty, True, "result of TimeZoneProvider::%s" % name)
+            # values of the typestate-checked types are valid wherever they come from (C02 R6)
+            val = self.validated(val, dty)
+        # generic provider methods: results are data the provider's author controls
+        if fnj.get("trait", "").endswith("provider::TimeZoneProvider") and "resolved" not in fnj:
+            handled = True
+            pv = eng.top(dty, "T", "the result of TimeZoneProvider::%s" % name)
+            val = pv if val is None else join(val, pv)
         if not handled:
             val = self.std_call(env, t, path, target, name, args, dty)
         e2 = dict(env)
@@ -912,6 +987,22 @@ class FnAnalysis:
             if a0 is not None and a1 is not None:
                 e2[("p", dl)] = ("cmp", op, {"c": self.root(env, M.place_local(a0))}, {"c": self.root(env, M.place_local(a1))})
         return [(tgt_bb, e2)]
+
+    def validated(self, val, dty):
+        d = (dty or "")
+        for w in ("core::result::Result<", "core::option::Option<"):
+            if d.startswith(w):
+                inner = _split_generics(d[len(w):-1])[0]
+                if base_ty(inner) in VALIDATED_OUTER and isinstance(val, Rec):
+                    k = ("variant", "Ok" if "Result" in w else "Some")
+                    if k in val.f:
+                        f2 = dict(val.f)
+                        f2[k] = Rec({0: Lazy(base_ty(inner), "V", "")})
+                        return Rec(f2)
+                return val
+        if base_ty(d) in VALIDATED_OUTER:
+            return Lazy(base_ty(d), "V", "")
+        return val
 
     def std_call(self, env, t, path, target, name, args, dty):
         eng = self.eng
@@ -957,15 +1048,41 @@ class FnAnalysis:
             return AV(-1, 1)
         if name in ("pow",) and isinstance(a0, AV) and isinstance(a1, AV) and a0.lo >= 0 and a1.lo >= 0 and a1.hi <= 64:
             return self.clamp_ty(AV(a0.lo ** a1.lo, a0.hi ** a1.hi, a0.t or a1.t, a0.why), dty)
+        if name == "from_residual":
+            if "Option" in (dty or "")[:30]:
+                return Rec({("variant", "None"): Rec({})})
+            return Rec({("variant", "Err"): Rec({})})
         if name in ("branch",) and "Try" in path:
-            return Rec({0: _payload(a0), ("variant", "Continue"): Rec({0: _payload(a0)})}) if a0 is not None else None
-        if name in ("unwrap_or", "unwrap_or_default", "unwrap", "expect", "unwrap_or_else") and a0 is not None:
-            pl = _payload(a0)
-            if name == "unwrap_or" and isinstance(pl, AV) and isinstance(a1, AV):
-                return join(pl, a1)
-            if name == "unwrap_or_default" and isinstance(pl, AV):
-                return join(pl, AV(0, 0))
-            return pl if pl is not None else eng.top(dty, getattr(a0, "t", False), getattr(a0, "why", ""))
+            if a0 is None:
+                return None
+            pl = _payload(a0, eng)
+            if pl == "never":
+                return Rec({("variant", "Break"): Rec({})})
+            out = {("variant", "Continue"): Rec({0: pl})}
+            if not (isinstance(a0, Rec) and not any(k in a0.f for k in (("variant", "Err"), ("variant", "None")))
+                    and any(isinstance(k, tuple) for k in a0.f)):
+                out[("variant", "Break")] = Rec({})
+            return Rec(out)
+        if name in ("unwrap_or", "unwrap_or_default", "unwrap", "expect", "unwrap_or_else", "temporal_unwrap",
+                    "unwrap_unchecked") and a0 is not None:
+            pl = _payload(a0, eng)
+            if pl == "never":
+                pl = None
+            if name == "unwrap_or":
+                return join(pl, a1) if (pl is not None and a1 is not None) else eng.top(dty, "T" if _t(a0) or _t(a1) else "U", _why(a0, a1))
+            if name == "unwrap_or_default":
+                if isinstance(pl, AV):
+                    return join(pl, AV(0, 0))
+                return pl if isinstance(pl, Fl) else eng.top(dty, "T" if _t(a0) else "U", _why(a0))
+            if name == "unwrap_or_else":
+                return eng.top(dty, "T" if _t(pl) or _t(a0) else "U", _why(pl, a0))
+            return pl if pl is not None else eng.top(dty, "T" if _t(a0) else "U", _why(a0))
+        if name in ("ok_or", "ok_or_else", "ok") and a0 is not None and ("Option" in path or "Result" in path):
+            pl = _payload(a0, eng)
+            if pl == "never":
+                return Rec({("variant", "Err" if name != "ok" else "None"): Rec({})})
+            return Rec({("variant", "Ok" if name != "ok" else "Some"): Rec({0: pl}),
+                        ("variant", "Err" if name != "ok" else "None"): Rec({})})
         if name in ("deref", "as_ref", "clone", "borrow", "to_owned", "copied", "cloned", "as_inner", "as_") and a0 is not None:
             if isinstance(a0, Fl) and r:
                 return AV(r[0], r[1], a0.t, a0.why)
@@ -990,42 +1107,59 @@ class FnAnalysis:
         return eng.top(dty, False, "")
 
 
-def _payload(v):
-    if isinstance(v, Rec):
-        if 0 in v.f:
-            return v.f[0]
-        if "0" in v.f:
-            return v.f["0"]
-        for k, x in v.f.items():
-            if isinstance(k, tuple) and k[0] == "variant" and isinstance(x, Rec) and 0 in x.f:
-                return x.f[0]
-        return None
-    if isinstance(v, Lazy):
-        m = re.match(r"^(?:core::result::Result|core::option::Option|core::ops::control_flow::ControlFlow)<(.*)>$", v.ty)
-        if m:
-            inner = m.group(1)
-            depth = 0
-            parts = []
-            cur = ""
-            for ch in inner:
-                if ch == "<":
-                    depth += 1
-                elif ch == ">":
-                    depth -= 1
-                if ch == "," and depth == 0:
-                    parts.append(cur.strip())
-                    cur = ""
-                else:
-                    cur += ch
+def _split_generics(inner):
+    depth = 0
+    parts = []
+    cur = ""
+    for ch in inner:
+        if ch in "<([":
+            depth += 1
+        elif ch in ">)]":
+            depth -= 1
+        if ch == "," and depth == 0:
             parts.append(cur.strip())
-            pick = parts[-1] if v.ty.startswith("core::ops::control_flow") else parts[0]
-            r = ty_range(pick)
-            if r:
-                return AV(r[0], r[1], v.t, v.why)
-            if pick in ("f64", "f32"):
-                return Fl(v.t, v.why)
-            return Lazy(base_ty(pick), v.t, v.why)
+            cur = ""
+        else:
+            cur += ch
+    parts.append(cur.strip())
+    return parts
+
+
+def _payload(v, eng=None):
+    """the success payload (Ok / Some / Continue) of a wrapper value"""
+    if isinstance(v, Rec):
+        for name in ("Ok", "Some", "Continue"):
+            x = v.f.get(("variant", name))
+            if isinstance(x, Rec):
+                return x.f.get(0)
+        if any(isinstance(k, tuple) for k in v.f):
+            return "never"          # only Err / None / Break variants: no success payload on this path
+        return v.f.get(0)
+    if isinstance(v, Lazy):
+        m = re.match(r"^(core::result::Result|core::option::Option|core::ops::control_flow::ControlFlow)<(.*)>$", v.ty)
+        if m and eng is not None:
+            parts = _split_generics(m.group(2))
+            pick = parts[-1] if m.group(1).endswith("ControlFlow") else parts[0]
+            return eng.top(pick, v.mode, v.why)
     return None
+
+
+def _t(v):
+    if isinstance(v, Rec):
+        return _rec_tainted(v)
+    return bool(getattr(v, "t", False))
+
+
+def _why(*vs):
+    for v in vs:
+        if isinstance(v, Rec):
+            for x in v.f.values():
+                w = _why(x)
+                if w:
+                    return w
+        elif getattr(v, "t", False):
+            return v.why
+    return ""
 
 
 def _tdiv(a, b):
@@ -1078,8 +1212,8 @@ def _fmt(v):
 
 
 def analyse(fx, crates=("temporal_rs", "temporal_capi")):
+    global _ENG
     eng = Engine(fx, crates)
-    eng.prepare_callers()
-    eng.seed(crates)
+    _ENG = eng
     eng.run()
     return eng
